@@ -310,7 +310,9 @@ class Check:
 
     # a concrete failing input against the implementation
     def violation(self, what, replay):
-        self.violations.append((dict(kind="failing-input", what=what, **replay), False))
+        # a replay object may carry its own `kind` / `what` fields: they are kept under another name
+        rep = {(k + "_" if k in ("kind", "what") else k): v for k, v in dict(replay).items()}
+        self.violations.append((dict(kind="failing-input", what=what, **rep), False))
 
     # proof obligation / correspondence broken, no failing input found
     def broken(self, what, detail):
